@@ -37,7 +37,7 @@ JOB_TIMEOUT = {"quick": 600, "thorough": 3000}
 PASSES = ["convert-scf-to-cf", "lower-affine", "scf-for-loop-range-folding", "scf-for-loop-flatten",
           "scf-for-loop-unroll", "licm", "control-flow-hoist", "frontend-desymrefy"]
 N_INPUTS = 8
-SRC_STEPS = 40000
+SRC_STEPS = 15000
 # ops declared Pure (always speculatable) in xdsl.dialects.arith although they trap on a zero / -1 divisor
 TRAP_PURE = ("arith.floordivsi", "arith.ceildivsi", "arith.remsi")
 
@@ -95,15 +95,19 @@ def classify(pn, out0, m_src, out1, m_tgt, src_mod):
         if "fold-bound-overflow" in m_tgt.flags:
             return pn + ":bound-overflow"
     elif pn == "scf-for-loop-flatten":
+        # design-level mechanisms first, so that the two with a proposed fix stay attributable after it lands
         for f, k in (("flatten-ub-times-factor-overflow", "ub-times-factor-overflow"),
+                     ("flatten-iv-sum-range-not-multiple", "iv-sum-outer-range-not-multiple-of-step"),
                      ("flatten-floor-factor", "inner-floor-factor-not-trip-count"),
-                     ("flatten-outer-step-ignored", "outer-step-ignored"),
-                     ("flatten-iv-sum-range-not-multiple", "iv-sum-outer-range-not-multiple-of-step")):
+                     ("flatten-outer-step-ignored", "outer-step-ignored")):
             if f in m_src.flags:
                 return pn + ":" + k
     elif pn in ("licm", "control-flow-hoist"):
+        # the op trapped on its divisor (0, -1 with INT_MIN, or a poison divisor; a poison dividend alone does not
+        # trap, see c16_ref) although the source never executed it on this input
         f = m_tgt.fault
-        if out1[0] == "undef" and f is not None and f.name in TRAP_PURE and f.results:
+        if out1[0] == "undef" and out1[1] in ("division by zero", "signed division overflow", "poison in division") and f is not None \
+                and f.name in TRAP_PURE and f.results:
             h = f.results[0].name_hint
             in_src = any(o.name == f.name and o.results[0].name_hint == h for o in src_mod.walk() if o.results)
             if h is not None and in_src and (f.name, h) not in m_src.trap_executed:
@@ -229,7 +233,11 @@ def _short(out):
 def plan(tier, seed):
     per_pass, shards = (300, 4) if tier == "quick" else (12000, 8)
     jobs = []
+    import os
+    only = [x for x in os.environ.get("XV_C16_ONLY", "").split(",") if x]  # mutant self-tests: subset of passes
     for pi, pn in enumerate(PASSES):
+        if only and pn not in only:
+            continue
         for s in range(shards):
             jobs.append({"kind": "gen", "pass": pn, "seed": seed * 1000003 + pi * 1009 + s, "n": per_pass // shards})
     return jobs
